@@ -137,4 +137,31 @@ Section PathProofs.
     intros H Hr. apply run_sound in H as [_ H]. apply Forall_forall. intros x Hx. destruct (H x Hx) as [t [Ht Hreach]].
     rewrite Forall_forall in Hr. eapply reach_Sub; eauto.
   Qed.
+  (* a collection that already holds every uid once is left as it is *)
+  Lemma dedup_fold_id : forall l acc, NoDup (map tuid (acc ++ l)) ->
+    fold_left (fun acc t => if existsb (fun x => Nat.eqb (tuid x) (tuid t)) acc then acc else acc ++ [t]) l acc = acc ++ l.
+  Proof.
+    induction l as [|t l IH]; intros acc H; cbn [fold_left]; [now rewrite app_nil_r|].
+    assert (E : existsb (fun x => Nat.eqb (tuid x) (tuid t)) acc = false).
+    { destruct (existsb _ acc) eqn:E; [|reflexivity]. exfalso. apply existsb_exists in E as [x [Hx Hxt]]. apply Nat.eqb_eq in Hxt.
+      rewrite map_app in H. cbn [map] in H. apply NoDup_remove_2 in H. apply H. apply in_or_app. left. rewrite <- Hxt. now apply in_map. }
+    rewrite E. rewrite IH; rewrite <- app_assoc; [reflexivity | exact H].
+  Qed.
+  Lemma dedup_tags_id l : NoDup (map tuid l) -> dedup_tags l = l.
+  Proof. intros H. unfold dedup_tags. now rewrite dedup_fold_id. Qed.
+
+  (* the path //name from an element is the tag-name search of C06 on that element and its descendants, in document order *)
+  Theorem descendant_path_is_search nm root : NoDup (map tuid (root :: descendants root)) ->
+    run [(true, None, nm, [])] [root] = XOk (filter (name_ok nm) (root :: descendants root)).
+  Proof.
+    intros Hnd. unfold XPath.run. rewrite (dedup_tags_id [root]) by (repeat constructor; intros []).
+    cbn [XPath.run_steps flat_map XPath.select snd]. rewrite app_nil_r.
+    assert (E : (if name_ok nm root then [root] else []) ++ filter (name_ok nm) (descendants root)
+                = filter (name_ok nm) (root :: descendants root)) by (cbn [filter]; destruct (name_ok nm root); reflexivity).
+    rewrite E. rewrite dedup_tags_id by (now apply NoDup_map_filter).
+    destruct (filter (name_ok nm) (root :: descendants root)) as [|x r]; reflexivity.
+  Qed.
+  Corollary descendant_path_is_from_root nm root : NoDup (map tuid (root :: descendants root)) ->
+    run [(true, None, nm, [])] [root] = XOk (from_root_search (name_ok nm) root true).
+  Proof. intros H. rewrite from_root_spec. now apply descendant_path_is_search. Qed.
 End PathProofs.
